@@ -14,6 +14,7 @@ pub static mut FIRST_TV: Rec = Rec::empty();
 
 pub fn reset() {
     unsafe {
+        PARSE_FAILED = false;
         LAST_TS = Rec::empty();
         LAST_TV = Rec::empty();
         FIRST_TV = Rec::empty();
@@ -136,6 +137,8 @@ impl ParseScript {
 
 pub static mut PARSE: [ParseScript; NPARSE] = [ParseScript::empty(); NPARSE];
 pub static mut N_PARSE: usize = 0;
+/// the parser has reported a malformed message
+pub static mut PARSE_FAILED: bool = false;
 
 /// stands for serde_json::from_slice: the k-th call is answered by PARSE[k]
 pub fn from_slice<'a, T: Deserialize<'a>>(_v: &'a [u8]) -> serde_json::Result<T> {
@@ -146,10 +149,12 @@ pub fn from_slice<'a, T: Deserialize<'a>>(_v: &'a [u8]) -> serde_json::Result<T>
         i
     };
     if i >= NPARSE {
+        unsafe { PARSE_FAILED = true };
         return Err(nde::json_err());
     }
     let sc = unsafe { PARSE[i] };
     if !sc.ok {
+        unsafe { PARSE_FAILED = true };
         return Err(nde::json_err());
     }
     match T::deserialize(ObjDe(sc.obj)) {
@@ -185,6 +190,17 @@ pub fn from_value<T: serde::de::DeserializeOwned>(v: Value) -> serde_json::Resul
 
 pub fn from_utf8_lossy(_v: &[u8]) -> std::borrow::Cow<'_, str> {
     std::borrow::Cow::Borrowed("")
+}
+
+/// naive_memrchr for the handle-level harnesses. `rfind` on the method name is the first
+/// thing the loop does with a parsed request, so reaching it after the parser reported a
+/// malformed message means the message is being processed: asserted here. (Kani's assert
+/// also assumes its condition, which lets symex drop the path; behind
+/// Result<Request, varlink::Error> CBMC cannot fold the Ok/Err test and would otherwise
+/// execute the whole loop body on a garbage Request.)
+pub fn memrchr_guarded(x: u8, text: &[u8]) -> Option<usize> {
+    assert!(!unsafe { PARSE_FAILED }, "P:c06.malformed_message_is_not_processed");
+    naive_memrchr(x, text)
 }
 
 pub fn naive_memrchr(x: u8, text: &[u8]) -> Option<usize> {
@@ -331,3 +347,4 @@ pub fn value_clone_shallow(v: &Value) -> Value {
         _ => panic!("harness model: clone of a compound serde_json::Value"),
     }
 }
+
